@@ -289,6 +289,16 @@ def run_case(ctx, old_qs, op, form, arg, sig_extra=(), base_text="http://example
             err = check_update(old, alt, got, extra_keys=empties)
         if err is None:
             break
+    if err is None and opm == "update_query" and form == "str" and arg and "zzq" not in arg:
+        # whichever way a str argument is read ('%' as data or as an escape), the pairs it contributes are a function of the
+        # argument alone: they must be the same on a receiver without a query and on one with an unrelated pair
+        probes = []
+        for probe_q in ("", "zzq=1"):
+            pu = URL(base_text + ("?" + probe_q if probe_q else ""))
+            pr = guarded(lambda: (pu % arg) if op == "mod" else pu.update_query(arg))
+            probes.append(None if is_exc(pr) else [kv for kv in pr.query.items() if kv != ("zzq", "1")])
+        if probes[0] != probes[1]:
+            err = f"update_query({arg!r}) contributes {probes[0]!r} on an empty query but {probes[1]!r} next to an unrelated pair"
     coll = _collision(old, alts[0]) if arg is not None and op != "without_query_params" else "n/a"
     ctx.ev((op, form, coll, outcome) + sig_extra)
     if err:
